@@ -75,11 +75,11 @@ Definition pack_name (ls : list label) : res bytes :=
 (* timerWireFmt *)
 Definition timer_vars (t : tsig) : bytes := u48 (k_time t) ++ u16 (k_fudge t).
 (* tsigWireFmt: NAME CLASS TTL ALGORITHM TIME FUDGE ERROR OTHERLEN OTHERDATA;
-   the class is the constant ANY whatever the record says *)
+   the class is the one the record carries (RFC 8945 4.3.3) *)
 Definition tsig_vars (t : tsig) : res bytes :=
   do n <- pack_name (canon (k_name t));
   do a <- pack_name (canon (k_alg t));
-  let v := n ++ u16 ClassANY ++ u32 (k_ttl t) ++ a ++ u48 (k_time t) ++ u16 (k_fudge t) ++
+  let v := n ++ u16 (k_class t) ++ u32 (k_ttl t) ++ a ++ u48 (k_time t) ++ u16 (k_fudge t) ++
            u16 (k_error t) ++ u16 (k_otherlen t) ++ k_other t in
   if default_msg_size <? lenN v then Err "overflow" else Ok v.
 
